@@ -227,7 +227,7 @@ BATCH_PROTO = [("CartesianX", ("Double",)), ("CartesianY", ("Double",)), ("Carte
 BATCH_M = 2
 
 
-def batch_scenario(kind, sym_options=False):
+def batch_scenario(kind, sym_options=False, m=BATCH_M):
     """One inductive step of the count/order bookkeeping: the queue reader holds BATCH_M complete points (any values, legal
     invalid-state), the iterator has already delivered `read0` < records points.  Two next() calls.  The row index is the
     identity tag of a point (no conversion touches it).  For the simple iterator the four post-processing switches are
@@ -237,7 +237,7 @@ def batch_scenario(kind, sym_options=False):
         I.use_uf_div = True
         s = mk_abs_reader(I, max_pages=3, cursor_bits=16)
         I.last_state = s
-        s.kind, s.proto, s.sym_options = kind, BATCH_PROTO, sym_options
+        s.kind, s.proto, s.sym_options, s.m = kind, BATCH_PROTO, sym_options, m
         s.records, s.read0 = fresh("pc_records"), fresh("it_read")
         I.path.assume(z3.ULT(s.read0, s.records))
         pc = mk_pointcloud(I, BATCH_PROTO, fresh("pc_offset"), s.records)
@@ -262,8 +262,8 @@ def batch_scenario(kind, sym_options=False):
         from .spec_packet import qr_field
         queues = qr_field(I, q, "queues").items
         s.rows = []
-        s.raws = [[z3.BitVec("raw%d_%d" % (k, j), 64) for j in range(len(BATCH_PROTO))] for k in range(BATCH_M)]
-        for k in range(BATCH_M):
+        s.raws = [[z3.BitVec("raw%d_%d" % (k, j), 64) for j in range(len(BATCH_PROTO))] for k in range(m)]
+        for k in range(m):
             for j, (nm, d) in enumerate(BATCH_PROTO):
                 b = s.raws[k][j]
                 if d[0] == "Double":
@@ -278,7 +278,7 @@ def batch_scenario(kind, sym_options=False):
                 queues[j].items.append(v)
         s.c0 = s.holder["r"].cursor
         s.res, s.reads, s.cursors = [], [], []
-        for _ in range(BATCH_M):
+        for _ in range(m):
             s.res.append(I.call_fn(I.methods[(cls, "Iterator", "next")], [Ref(Loc(s.holder, "it"))]))
             s.reads.append(s.holder["it"].fields[names.index("read")])
             s.cursors.append(s.holder["r"].cursor)
@@ -324,17 +324,22 @@ def batch_claims(s, I):
                     z3.Implies(z3.Not(s.opts["c2s"]), z3.BoolVal(sph.vname == "Invalid"))))
         out.append(("colour and intensity stay absent (none stored), whatever the switches are",
                     z3.BoolVal(pt.fields[pn.index("color")].vname == "None" and pt.fields[pn.index("intensity")].vname == "None")))
-    exhausted = z3.UGE(s.read0 + U64(1), s.records)
-    if s.res[1].vname == "None":
-        out.append(("call 2 yields None only when the declared record count is reached", exhausted))
-        out.append(("None does not count", s.reads[1] == s.read0 + U64(1)))
-    else:
-        r1 = _row_of(I, s, s.res[1])
-        out.append(("call 2 (record count not reached): delivers a point, not an error", z3.BoolVal(r1 is not None)))
-        out.append(("call 2 never delivers beyond the declared record count", z3.Not(exhausted)))
-        if r1 is not None:
-            out.append(("call 2 delivers the NEXT buffered point (order preserved)", r1 == s.rows[1]))
-            out.append(("call 2 counts one delivered point", s.reads[1] == s.read0 + U64(2)))
+    delivered = 1                       # points delivered so far on this path
+    for c in range(1, len(s.res)):
+        exhausted = z3.UGE(s.read0 + U64(delivered), s.records)
+        n = c + 1
+        if s.res[c].vname == "None":
+            out.append(("call %d yields None only when the declared record count is reached" % n, exhausted))
+            out.append(("None does not count (call %d)" % n, s.reads[c] == s.read0 + U64(delivered)))
+        else:
+            rc = _row_of(I, s, s.res[c])
+            out.append(("call %d (record count not reached): delivers a point, not an error" % n, z3.BoolVal(rc is not None)))
+            out.append(("call %d never delivers beyond the declared record count" % n, z3.Not(exhausted)))
+            if rc is None:
+                break
+            out.append(("call %d delivers the NEXT buffered point (order preserved)" % n, rc == s.rows[delivered]))
+            delivered += 1
+            out.append(("call %d counts one delivered point" % n, s.reads[c] == s.read0 + U64(delivered)))
     # (whether the device is touched while points are buffered is an implementation choice — read-ahead would be legal — and is not claimed)
     return out
 
@@ -382,7 +387,7 @@ class BatchReplay(AbsReaderReplay):
             return bool(mval(model, z3.If(x, U64(1), U64(0))))
         self.extra = lambda m, ss: dict(kind=ss.kind, records=mval(m, ss.records), read0=mval(m, ss.read0), pc_offset=mval(m, z3.BitVec("pc_offset", 64)),
                                         opts={k: b(v) for k, v in ss.opts.items()},
-                                        raws=[[mval(m, z3.BitVec("raw%d_%d" % (k, j), 64)) for j in range(len(BATCH_PROTO))] for k in range(BATCH_M)])
+                                        raws=[[mval(m, z3.BitVec("raw%d_%d" % (k, j), 64)) for j in range(len(BATCH_PROTO))] for k in range(ss.m)])
         return super().extract(I, model, s)
 
     def run(self, I, scenario, claim_name, pre):
@@ -415,7 +420,7 @@ class BatchReplay(AbsReaderReplay):
                     "println!(\"VR sph{k}={} col{k}={} inten{k}={}\", match p.spherical { crate::SphericalCoordinate::Invalid => \"Invalid\", crate::SphericalCoordinate::Valid { .. } => \"Valid\", _ => \"Direction\" }, "
                     "if p.color.is_some() { \"Some\" } else { \"None\" }, if p.intensity.is_some() { \"Some\" } else { \"None\" }); }, ")
         calls = ""
-        for k in range(BATCH_M):
+        for k in range(len(pre["raws"])):
             calls += ("match it.next() { None => println!(\"VR res%d=none\"), Some(Err(_)) => println!(\"VR res%d=err\"), " % (k, k) + show.replace("{k}", str(k)) + "} "
                       "println!(\"VR read%d={} cur%d={}\", it.verif_read(), it.verif_offset()); " % (k, k))
         op = ("let mut pc = crate::PointCloud::default(); pc.prototype = vec![%s]; pc.records = %d; pc.file_offset = %d; "
@@ -443,7 +448,7 @@ class BatchReplay(AbsReaderReplay):
         s.c0 = U64(int(kv.get("cur_new", "0")))          # native reader offsets: only their equality matters to the claims
         s.res, s.reads, s.cursors = [], [], []
         names = I.struct_fields["Point"]
-        for k in range(BATCH_M):
+        for k in range(len(pre["raws"])):
             t = kv.get("res%d" % k, "err")
             if t == "none":
                 s.res.append(NoneV())
@@ -482,61 +487,11 @@ class BatchReplay(AbsReaderReplay):
 
 def batch_scenarios(tier="quick"):
     rp = BatchReplay()
-    out = [Scenario("raw iterator: two next() calls over %d buffered points, any read < records" % BATCH_M, batch_scenario("raw"), batch_claims, max_paths=300, replayer=rp),
-           Scenario("simple iterator: two next() calls over %d buffered points, any read < records, post-processing off" % BATCH_M, batch_scenario("simple"), batch_claims,
-                    max_paths=600, time_budget=900, replayer=rp)]
+    m = 2 if tier == "quick" else 3
+    out = [Scenario("raw iterator: %d next() calls over %d buffered points, any read < records" % (m, m), batch_scenario("raw", m=m), batch_claims, max_paths=600, replayer=rp),
+           Scenario("simple iterator: %d next() calls over %d buffered points, any read < records, post-processing off" % (m, m), batch_scenario("simple", m=m), batch_claims,
+                    max_paths=3000, time_budget=1200, replayer=rp)]
     if tier != "quick":
-        out.append(Scenario("simple iterator: two next() calls over %d buffered points, any read < records, any setting of the four post-processing switches" % BATCH_M,
+        out.append(Scenario("simple iterator: 2 next() calls over 2 buffered points, any read < records, any setting of the four post-processing switches",
                             batch_scenario("simple", sym_options=True), batch_claims, max_paths=6000, time_budget=2400, replayer=rp))
     return out
-
-
-# ------------------------------------------------------------------------------------------------ C08 / C03: iterator construction over any bytes
-def new_scenario(kind):
-    """<iterator>::new with ANY descriptor (file offset, record count: any u64) over ANY device content of <= 3 pages"""
-    def scen(I):
-        init_interp(I)
-        I.use_uf_div = True
-        s = mk_abs_reader(I, max_pages=3, cursor_bits=16)
-        I.last_state = s
-        s.kind = kind
-        s.off = fresh("pc_offset")
-        s.holder["pc"] = mk_pointcloud(I, PROTO, s.off, fresh("pc_records"))
-        cls = {"raw": "PointCloudReaderRaw", "simple": "PointCloudReaderSimple", "queue": "QueueReader"}[kind]
-        s.new = I.call_fn(I.methods[(cls, None, "new")], [Ref(Loc(s.holder, "pc")), s.ref])
-        s.cur = s.holder["r"].cursor
-        return s
-    return scen
-
-
-def new_claims(s, I):
-    """construction is checked for totality only (the implicit 'no panic' claim): when a reader validates the section header or
-    seeks to the data offset — eagerly here, lazily in another implementation — is not part of any property"""
-    return []
-
-
-def _new_extra(model, s):
-    return dict(kind=s.kind, off=mval(model, s.off), records=mval(model, z3.BitVec("pc_records", 64)))
-
-
-def _new_op(pre):
-    recs = ", ".join("crate::Record { name: crate::RecordName::%s, data_type: %s }" % (nm, rust_dtype(d)) for nm, d in PROTO)
-    cls = {"raw": "crate::pc_reader_raw::PointCloudReaderRaw", "simple": "crate::pc_reader_simple::PointCloudReaderSimple", "queue": "crate::queue_reader::QueueReader"}[pre["kind"]]
-    return ("let mut pc = crate::PointCloud::default(); pc.prototype = vec![%s]; pc.records = %d; pc.file_offset = %d; "
-            "match %s::new(&pc, &mut r) { Err(_) => println!(\"VR new=err\"), Ok(_) => println!(\"VR new=ok\") }" % (recs, pre["records"], pre["off"], cls))
-
-
-def _new_rebuild(I, pre, kv):
-    from .models import ErrV, OkV
-    s = native_abs_reader(pre, kv)
-    s.kind, s.off = pre["kind"], U64(pre["off"])
-    s.new = OkV(None) if kv.get("new") == "ok" else ErrV(None)
-    s.cur = s.cursor
-    return s
-
-
-def new_scenarios(tier="quick"):
-    rp = AbsReaderReplay(_new_op, _new_extra, _new_rebuild)
-    kinds = ("queue", "simple") if tier == "quick" else ("queue", "raw", "simple")
-    return [Scenario("%s::new with any descriptor over any device" % {"raw": "PointCloudReaderRaw", "simple": "PointCloudReaderSimple", "queue": "QueueReader"}[k],
-                     new_scenario(k), new_claims, max_paths=600, replayer=rp) for k in kinds]
